@@ -716,7 +716,7 @@ impl Model {
             .map(|(r, i)| format!("{}:{}", r, i))
             .collect();
         format!(
-            "list={} sel={} nopt={} mc={} clear={:?} cur={} run={} pool={}/{} rdone={} q={:?}",
+            "list={} sel={} nopt={} mc={} clear={:?} cur={} run={} pool={}/{} rdone={} re={} q={:?}",
             list.join(","),
             sel.join(","),
             self.num_options,
@@ -727,6 +727,7 @@ impl Model {
             self.item_pool.num_taken(),
             self.item_pool.len(),
             self.reader_control.as_ref().map(|c| c.is_done()).unwrap_or(true),
+            self.use_regex,
             env.query,
         )
     }
